@@ -588,9 +588,13 @@ func (v SolutionVehicle) Unplan() (bool, error) {
 	})
 	// the collections list root plan units only: a stop of a member of a units-unit
 	// moves the unit it ultimately belongs to
-	for _, planUnit := range planUnits {
-		solution.unPlannedPlanUnits.add(solution.unwrapRootPlanUnit(planUnit))
-		solution.plannedPlanUnits.remove(solution.unwrapRootPlanUnit(planUnit))
+	// (resolved once: the lookup goes through the collections that are updated here)
+	rootPlanUnits := common.Map(planUnits, func(planUnit *solutionPlanStopsUnitImpl) SolutionPlanUnit {
+		return solution.unwrapRootPlanUnit(planUnit)
+	})
+	for _, rootPlanUnit := range rootPlanUnits {
+		solution.unPlannedPlanUnits.add(rootPlanUnit)
+		solution.plannedPlanUnits.remove(rootPlanUnit)
 	}
 	stopPositions := common.Map(solutionStops, func(solutionStop SolutionStop) StopPosition {
 		return newStopPosition(
@@ -617,9 +621,9 @@ func (v SolutionVehicle) Unplan() (bool, error) {
 				beforeStop.PreviousIndex(),
 			)
 		}
-		for _, planUnit := range planUnits {
-			solution.unPlannedPlanUnits.remove(solution.unwrapRootPlanUnit(planUnit))
-			solution.plannedPlanUnits.add(solution.unwrapRootPlanUnit(planUnit))
+		for _, rootPlanUnit := range rootPlanUnits {
+			solution.unPlannedPlanUnits.remove(rootPlanUnit)
+			solution.plannedPlanUnits.add(rootPlanUnit)
 		}
 		constraint, _, err := solution.isFeasible(index, true)
 		if err != nil {
